@@ -87,11 +87,20 @@ func jsCells(cs []vaxis.Cell) []jsCell {
 // feed runs s through the library's ansi.Parser (as ParseStyledString does) and
 // applies every SGR sequence with apply; returns the pen at each grapheme and at the end.
 func feed(s string, apply func([][]int, vaxis.Style) vaxis.Style) ([]vaxis.Cell, vaxis.Style) {
+	cells, pen, timerEsc := feedOnce(s, apply)
+	for n := 0; n < hx.TimerEscRetries && timerEsc; n++ {
+		cells, pen, timerEsc = feedOnce(s, apply) // scheduling artefact, see hx.IsTimerEsc
+	}
+	return cells, pen
+}
+
+func feedOnce(s string, apply func([][]int, vaxis.Style) vaxis.Style) (cells []vaxis.Cell, pen vaxis.Style, timerEsc bool) {
 	parser := ansi.NewParser(strings.NewReader(s))
 	defer parser.Close()
-	var cells []vaxis.Cell
-	pen := vaxis.Style{}
 	for seq := range parser.Next() {
+		if hx.IsTimerEsc(seq) {
+			timerEsc = true
+		}
 		switch seq := seq.(type) {
 		case ansi.Print:
 			cells = append(cells, vaxis.Cell{Character: vaxis.Character{Grapheme: seq.Grapheme}, Style: pen})
@@ -107,7 +116,7 @@ func feed(s string, apply func([][]int, vaxis.Style) vaxis.Style) ([]vaxis.Cell,
 		}
 		parser.Finish(seq)
 	}
-	return cells, pen
+	return cells, pen, timerEsc
 }
 
 var vx0 vaxis.Vaxis // NewStyledString only reads vx.caps (for widths, which C18 ignores)
